@@ -18,7 +18,7 @@ CHECKS = {
         deep=True,      # ./check adds --deep for the thorough tier: bounds beyond the promoted ones (see bounds["thorough"])
         level="model_checking",
         runs=[dict(name="wipe", target="h_wipe", args=[], quick=[], thorough=[])],
-        deadline=dict(quick=150, thorough=900),   # deep: ~230 s measured on a loaded machine (about 950 CPU-seconds)
+        deadline=dict(quick=150, thorough=900),   # deep: ~150 s measured at load average 20 (about 1500 CPU-seconds; 2.5x that wall time when the machine is saturated by others)
         explanation=("states/transitions: hash = explicit-state search (engine/es.h) over (history, raw context bytes), one real Update/Final per edge; "
                      "aes/aesctr/keys = nodes and API calls of the history trees; dh = allocator events observed by the monitor during each call. "
                      "traces = complete histories ending in Final / free / return, each judged by the wipe oracle."),
@@ -27,7 +27,7 @@ CHECKS = {
                           "allocation failure for every private value x {r#0, r=x} x 3 ops; keys: all files of <=4 lines from 8 kinds x {EOF, read error}",
                     thorough="hash: <=5 updates from 9 lengths; aes: 6 keys, 0..3 encryptions; aesctr: <=5 ops from 9; dh: 8 private x 6 blinding (+failure) x 4 peers, allocation failures for every private value; keys: <=4 lines "
                              "(these bounds also serve the quick tier). ./check --tier thorough runs the harness with --deep: hash: <=6 updates from the 9 lengths (597871 contexts per algorithm/key, each finalised); "
-                             "aes: 16 keys, 0..5 encryptions; aesctr: <=6 ops from 11 (stream of 1|15|16|17|31|32|33|40|100 bytes, init2(NULL), init2(key')): 31179472 histories; dh: 14 private x 10 blinding (+entropy failure) "
+                             "aes: 16 keys, 0..5 encryptions; aesctr: <=6 ops from 12 (stream of 1|15|16|17|31|32|33|40|64|100 bytes, init2(NULL), init2(key')): 52118992 histories; dh: 14 private x 10 blinding (+entropy failure) "
                              "x 6 peers + every single OpenSSL allocation failure for every private value x {r#0, r=x, r#1, entropy failure} x 3 ops (10640 failing calls); keys: all files of <=7 lines from 8 kinds x {EOF, read error} (2196114 files)"),
         assumptions=["frees by libcperciva objects observed through -Wl,--wrap=free,strdup; frees inside libcrypto through CRYPTO_set_mem_functions",
                      "crypto_entropy_read and fopen replaced at link time; AES code path forced through the cpusupport globals",
